@@ -396,6 +396,50 @@ def tw_ndjson_stream(n: int, i: int, j: int, blank: bool) -> bool:
     return False
 
 
+SSE_TEXTS = ["hello", "5", "{}", "a b"]
+
+
+def ob_sse_json_events(n: int, i: int, j: int) -> bool:
+    """
+    pre: 0 <= n <= 2 and 0 <= i < 3 and 0 <= j < 3
+    post: _
+    """
+    # an event stream whose events carry JSON objects: one item per event, in order
+    ids = [ND_IDS[i], ND_IDS[j]][:n]
+    r = Resp(200, _NOJSON, ctype="text/event-stream")
+    r._lines = []
+    for k in ids:
+        r._lines += ['data: {"id": %d}' % k, ""]
+    items = collect(ep.DefaultClient(T(r), "http://h").tail_changes())
+    return len(items) == n and all((x.get("id") if isinstance(x, dict) else getattr(x, "id_", None)) == k for x, k in zip(items, ids))
+
+
+def tw_sse_json_events(n: int, i: int, j: int) -> bool:
+    """
+    pre: 0 <= n <= 2 and 0 <= i < 3 and 0 <= j < 3
+    post: _
+    """
+    r = Resp(200, _NOJSON, ctype="text/event-stream")
+    r._lines = ['data: {"id": 1}', ""]
+    collect(ep.DefaultClient(T(r), "http://h").tail_changes())
+    return False
+
+
+def kf_sse_text_events(n: int, i: int, j: int) -> bool:
+    """
+    pre: 1 <= n <= 2 and 0 <= i < 4 and 0 <= j < 4
+    post: _
+    """
+    # the events of a stream declared `schema: {type: string}` are texts: exactly what the server sent, in order
+    texts = [SSE_TEXTS[i], SSE_TEXTS[j]][:n]
+    r = Resp(200, _NOJSON, ctype="text/event-stream")
+    r._lines = []
+    for t in texts:
+        r._lines += ["data: " + t, ""]
+    items = collect(ep.DefaultClient(T(r), "http://h").tail_ticks())
+    return items == texts
+
+
 def ob_vendor_json_item(i: int, has_name: bool, name: str) -> bool:
     """
     pre: len(name) <= 2
@@ -548,7 +592,7 @@ def kf_return_annotation(which: int, i: int, code: str) -> bool:
 
 
 # kf_* conditions probe listed known findings (see /verif/known_findings.json): label of the finding each one witnesses
-KNOWN = {"kf_return_annotation": lambda which, i, code: "secondary-2xx-not-in-annotation"}
+KNOWN = {"kf_return_annotation": lambda which, i, code: "secondary-2xx-not-in-annotation", "kf_sse_text_events": lambda n, i, j: "sse-declared-item-schema-ignored"}
 
 
 def ob_declaration_order_of_successes(which: int, i: int, code: str) -> bool:
